@@ -9,7 +9,7 @@ import z3
 
 from .values import (SymVal, CharStr, PyObj, PyList, SymSeq, PyDict, SymMap, PySet, SymSet,
                      ClassObj, BuiltinClass, EnumMember, FuncObj, BoundMethod, StaticMethod,
-                     PropertyObj, ModuleObj, Builtin, ExcObj, Opaque, _MISSING)
+                     PropertyObj, ModuleObj, Builtin, ExcObj, Opaque, Computed, _MISSING)
 from . import ops
 from .ops import to_term, mk, kind_of, is_num
 
@@ -114,6 +114,7 @@ class Interp:
         self.feas_checks = 0
         self.cur_func = []
         self.volatile = {}          # (id(obj), field) -> reader: fields written by other threads (rely)
+        self.loop_entry_stack = []
         from . import models
         models.install(self)
 
@@ -141,6 +142,7 @@ class Interp:
             self.old_mode = 0
             self.cur_func = []
             self.volatile = {}
+            self.loop_entry_stack = []
             try:
                 out = thunk()
                 outcomes.append((n, out))
@@ -666,6 +668,11 @@ class Interp:
         if target.startswith('ghost:'):
             gname = target[6:]
             cur = self.ghost.get(gname)
+            if isinstance(cur, SymSeq):
+                cur.arr = z3.Array(self._fname('arr'), z3.IntSort(), cur.arr.sort().range())
+                cur.n = self.fresh('int', 'len').t
+                self.assume(cur.n >= 0)
+                return
             self.ghost[gname] = self.havoc_value(cur, gname, spec)
             return
         node = ast.parse(target, mode='eval').body
@@ -712,7 +719,24 @@ class Interp:
         for iid, text in spec.invariants:
             self.assume(self.eval_spec(text, env, extra))
 
+    def entry_snapshot(self, env):
+        roots = [v for v in self.ghost.values() if not callable(v)]
+        e = env
+        while e is not None:
+            roots.extend(e.vars.values())
+            e = e.parent
+        snap = self.snapshot(roots)
+        snap['__ghost__'] = dict(self.ghost)
+        return snap
+
     def loop_cut_while(self, st, env, spec):
+        self.loop_entry_stack.append(self.entry_snapshot(env))
+        try:
+            return self._loop_cut_while(st, env, spec)
+        finally:
+            self.loop_entry_stack.pop()
+
+    def _loop_cut_while(self, st, env, spec):
         self.check_invariants(spec, env, 'entry')
         self.loop_havoc(st, env, spec)
         self.assume_invariants(spec, env)
@@ -1318,7 +1342,10 @@ class Interp:
             return self.getattr_or_missing(obj.func, name)
         if isinstance(obj, Opaque):
             if name in obj.attrs:
-                return obj.attrs[name]
+                v = obj.attrs[name]
+                if isinstance(v, Computed):
+                    return v.fn(self, obj)
+                return v
             if name in obj.methods:
                 m = obj.methods[name]
                 return Builtin('%s.%s' % (obj.name, name), lambda it, a, k, m=m: m(it, obj, a, k))
@@ -1697,6 +1724,17 @@ class Interp:
                     self.old_mode -= 1
             if nm in ('forall', 'exists'):
                 return self.quantifier(nm, node, env)
+            if nm == 'at_entry':        # value at the entry of the innermost enclosing cut loop
+                if not self.loop_entry_stack:
+                    raise Unsupported('at_entry() outside a loop invariant')
+                saved = self.old_snapshot
+                self.old_snapshot = self.loop_entry_stack[-1]
+                self.old_mode += 1
+                try:
+                    return self.frozen_old(self.eval(node.args[0], env))
+                finally:
+                    self.old_mode -= 1
+                    self.old_snapshot = saved
             if nm == 'unchanged' and len(node.args) == 1:
                 new = self.eval(node.args[0], env)
                 self.old_mode += 1
@@ -2012,7 +2050,14 @@ class Interp:
             elif isinstance(o, BoundMethod):
                 stack.append(o.self)
         snap['__keep__'] = keep
+        snap['__ghost__'] = dict(self.ghost)
         return snap
+
+    def ghost_read(self, name):
+        """ghost value; inside old(...) / at_entry(...) the value recorded in that snapshot"""
+        if self.old_mode and self.old_snapshot is not None and '__ghost__' in self.old_snapshot:
+            return self.old_snapshot['__ghost__'].get(name)
+        return self.ghost.get(name)
 
 
 def mk_elem(t, k):
